@@ -139,6 +139,9 @@ type Node struct {
 	Orphans map[H]bool
 	// Dropped: vertices that left this node's live DAG without being checkpointed (tentative tips dropped as invalid)
 	Dropped []H
+	// TrustCfg: the addresses the harness itself put in this node's trusted store and has not taken out again. The
+	// exemption from the funds test is judged against this record, not against what the store says it holds.
+	TrustCfg map[string]bool
 	// Abandoned: the harness cancelled a truncation of this node after the checkpoint funds were written and before
 	// the vertices were cut (they are counted twice from then on). Outside every quantifier (DESIGN 5.4): the node is
 	// not judged any further.
@@ -671,11 +674,16 @@ func (w *World) Truncate(n *Node) error {
 }
 
 func (w *World) Trust(n *Node, addr string, on bool) {
+	if n.TrustCfg == nil {
+		n.TrustCfg = map[string]bool{}
+	}
 	if on {
 		n.Book.AddTrustedNode(addr)
 		w.Trusted[addr] = true
+		n.TrustCfg[addr] = true
 	} else {
 		n.Book.RemoveTrustedNode(addr)
+		delete(n.TrustCfg, addr)
 	}
 	w.Logf("%s.trust(%s)=%v", n.Name, w.NameOf(addr), on)
 	w.Observe(n, OpInfo{Kind: "trust", OK: true})
